@@ -47,7 +47,7 @@ func loadEngine(repo string, cfg BuildConfig, contractDir string) (*Engine, erro
 	}
 	prog, spkgs := ssautil.AllPackages(pkgs, ssa.InstantiateGenerics|ssa.GlobalDebug)
 	prog.Build()
-	en := &Engine{prog: prog, pkgs: map[string]*ssa.Package{}, contracts: map[string]*PkgContracts{}, globals: map[*ssa.Global]*Region{}, globalInit: map[*ssa.Global]Cell{}, oblSeq: map[string]int{}, cfgName: cfg.Name, maxSteps: 4000000, maxPaths: 20000, inlineDepthMax: 12, sideBatch: 24, debugNames: map[ssa.Value]string{},
+	en := &Engine{prog: prog, pkgs: map[string]*ssa.Package{}, contracts: map[string]*PkgContracts{}, globals: map[*ssa.Global]*Region{}, globalInit: map[*ssa.Global]Cell{}, oblSeq: map[string]int{}, cfgName: cfg.Name, maxSteps: 4000000, maxPaths: 20000, inlineDepthMax: 12, sideBatch: 24, debugNames: map[ssa.Value]string{}, externCalls: map[string]bool{},
 		forceInline: map[string]bool{}, inlined: map[string]bool{}, usedContracts: map[string]bool{}, assumedUsed: map[string]bool{}, usedLoops: map[string]bool{}, loopHdrCache: map[*ssa.Function]map[int]int{}, callOrdCache: map[*ssa.Function]map[ssa.Instruction]int{}, usedCuts: map[string]bool{}, anchorCache: map[*ssa.Function]*cutAnchorSet{}}
 	for _, p := range spkgs {
 		if p != nil {
@@ -91,6 +91,9 @@ func loadEngine(repo string, cfg BuildConfig, contractDir string) (*Engine, erro
 			return nil, err
 		}
 		en.contracts[path] = c
+	}
+	if err := en.RunInits(); err != nil {
+		return nil, err
 	}
 	return en, nil
 }
@@ -191,6 +194,19 @@ func discharge(o *Obligation, timeout time.Duration) (r OblResult) {
 
 func dischargeAll(obls []*Obligation, timeout time.Duration, par int) []OblResult {
 	res := make([]OblResult, len(obls))
+	if os.Getenv("GOVC_PAR") != "" {
+		par = 1
+	}
+	if only := os.Getenv("GOVC_ONLY"); only != "" {
+		var sel []*Obligation
+		for _, o := range obls {
+			if strings.Contains(o.Name, only) {
+				sel = append(sel, o)
+			}
+		}
+		obls = sel
+		res = make([]OblResult, len(obls))
+	}
 	var wg sync.WaitGroup
 	sem := make(chan struct{}, par)
 	for i, o := range obls {
